@@ -798,6 +798,12 @@ type caseDesc struct {
 }
 
 func (c caseDesc) String() string {
+	if c.what == "" {
+		return "unit setup"
+	}
+	if c.pl < 0 {
+		return fmt.Sprintf("%s=%s port=%d (layout)", c.what, c.ak, c.port)
+	}
 	return fmt.Sprintf("%s=%s port=%d payloadLen=%d pad=%s", c.what, c.ak, c.port, c.pl, padName(c.pad))
 }
 
@@ -1773,19 +1779,41 @@ func workerMain(tier, shard string) {
 	}
 }
 
+func unitOf(rec map[string]any) (u unit, ord int64, sig string) {
+	ub, _ := json.Marshal(rec["unit"])
+	if err := json.Unmarshal(ub, &u); err != nil {
+		harness.Fatal("replay unit: %v", err)
+	}
+	switch o := rec["ordinal"].(type) {
+	case float64:
+		ord = int64(o)
+	case int64:
+		ord = o
+	}
+	sig, _ = rec["signature"].(string)
+	return
+}
+
+func reproduces(tier string, v vrec) bool {
+	u, ord, sig := unitOf(v.Replay)
+	t := buildTier(tier)
+	t.units = []unit{u}
+	for _, w := range runUnit(tier, t, 0, ord, false).Viols {
+		if w.Sig == sig {
+			return true
+		}
+	}
+	return false
+}
+
 func replayMain(c *harness.Check) {
 	rec, err := harness.ReplayFile(c.Replay)
 	if err != nil {
 		harness.Fatal("%v", err)
 	}
 	tier, _ := rec["tier"].(string)
-	ub, _ := json.Marshal(rec["unit"])
-	var u unit
-	if err := json.Unmarshal(ub, &u); err != nil {
-		harness.Fatal("replay unit: %v", err)
-	}
-	ord, _ := rec["ordinal"].(float64)
-	sig, _ := rec["signature"].(string)
+	u, iord, sig := unitOf(rec)
+	ord := float64(iord)
 	t := buildTier(tier)
 	t.units = []unit{u}
 	fmt.Printf("replaying unit {%s} up to case #%d {%v}\n", u, int64(ord), rec["case"])
@@ -1857,6 +1885,7 @@ func main() {
 		secs              float64
 	}
 	parts := map[string]*agg{}
+	confirmed := map[string]bool{}
 	skipped := 0
 	var totalCases, totalOps, delivered int64
 	for idx, ur := range results {
@@ -1884,6 +1913,15 @@ func main() {
 			c.Distinct(u.String()+"|"+k, true)
 		}
 		for _, v := range ur.Viols {
+			if confirmed[v.Sig] {
+				continue
+			}
+			confirmed[v.Sig] = true
+			// re-run the unit from a fresh world up to that case: the same
+			// violation must show again, otherwise the harness is not deterministic
+			if len(confirmed) <= 60 && !reproduces(c.Tier, v) {
+				harness.Fatal("violation %q did not reproduce on an identical re-run (nondeterminism in the harness): %s", v.Sig, v.What)
+			}
 			c.Violation(v.Sig, v.What, v.Replay)
 		}
 		if ur.Sample != nil && (idx%97 == 0 || u.Part[0] == 'B' && idx%89 == 0) {
